@@ -7,7 +7,13 @@ from ..build import AnalysisBroken
 from . import common, algebra
 
 S, SA, D, DA, M, MA = sympy.symbols('S SA D DA M MA')
-ALPHA = {S: SA, D: DA, M: MA}
+ACH = sympy.Symbol('ACH')        # channel indicator: 1 in the alpha channel, 0 in a colour channel (only produced by forcing a pixel opaque)
+ALPHA = {S: SA, D: DA, M: MA, ACH: 1}
+
+
+def force_opaque(v):
+    """the pixel v with its alpha channel replaced by 1 (x888 | 0xff000000)"""
+    return sympy.expand(v * (1 - ACH) + ACH)
 
 
 class Unknown(Exception):
@@ -30,6 +36,63 @@ class Ptr:
 
 
 ROLE_SYM = {'s': S, 'd': D, 'm': M}
+AMASK = ('amask',)      # a constant whose only set bits are the full alpha channel: or-ing it in forces the pixel opaque
+
+
+def _classify_const(bits, width):
+    """meaning of a replicated constant of `width` bits in the 8-bit-per-channel fixed-point vocabulary"""
+    bits &= (1 << width) - 1
+    if bits == 0:
+        return sympy.Integer(0)
+    lanes16 = [(bits >> k) & 0xffff for k in range(0, width, 16)]
+    if all(l == 0x00ff for l in lanes16):
+        return sympy.Integer(1)
+    lanes32 = [(bits >> k) & 0xffffffff for k in range(0, width, 32)]
+    if all(l == 0xff000000 for l in lanes32):
+        return AMASK
+    if width >= 64 and all(((bits >> k) & 0xffffffffffffffff) == 0x00ff000000000000 for k in range(0, width, 64)):
+        return AMASK
+    return None
+
+
+_GC = {}
+
+
+def unit_consts(P, u):
+    """constants the unit keeps in globals, resolved from their initialisers (MMX: const struct c) or from the only stores to them (SSE2: create_mask_* in the constructor)"""
+    if u.name in _GC:
+        return _GC[u.name]
+    out = {}
+    for name, g in u.globals.items():
+        init = g.get('init')
+        if g.get('const') and isinstance(init, list) and g.get('type', '').startswith('%struct.'):
+            for i, v in enumerate(init):
+                try:
+                    out[(name, i)] = _classify_const(int(v), 64)
+                except (TypeError, ValueError):
+                    pass
+    stores = defaultdict(list)
+    for f in u.functions.values():
+        for b in f.blocks:
+            for x in b.insts:
+                if x.op == 'store' and x.a[1][0] == 'g':
+                    stores[x.a[1][1]].append((f, x))
+    for name, sts in stores.items():
+        vals = set()
+        for f, x in sts:
+            v = None
+            if x.a[0][0] == 'v':
+                c = f.by_id[x.a[0][1]]
+                if c.op == 'call' and c.callee == 'create_mask_16_128' and c.a[0][0] == 'c':
+                    k = int(c.a[0][1]) & 0xffff
+                    v = _classify_const(k | k << 16 | k << 32 | k << 48, 64)
+                elif c.op == 'call' and c.callee == 'create_mask_2x32_128' and c.a[0][0] == 'c' and c.a[1][0] == 'c':
+                    v = _classify_const((int(c.a[0][1]) & 0xffffffff) << 32 | (int(c.a[1][1]) & 0xffffffff), 64)
+            vals.add(v)
+        if len(vals) == 1 and None not in vals:
+            out[(name, None)] = vals.pop()
+    _GC[u.name] = out
+    return out
 
 # ---- helper vocabularies: name -> function(ex, call, args) -> returned symbolic value (writes go through ex.mem)
 def _v(ex, a):
@@ -42,6 +105,57 @@ def _ld(ex, p):
 
 def _st(ex, p, v):
     ex.store_ptr(p, v)
+
+
+def _or(ex, c, a):
+    x, y = ex.val(a[0]), ex.val(a[1])
+    if y == AMASK:
+        return ex.opaque(x)
+    if x == AMASK:
+        return ex.opaque(y)
+    if _is_expr(x) and _is_expr(y) and sympy.expand(x - y) == 0:
+        return x
+    raise Unknown('bitwise or of two different values')
+
+
+def _xor(ex, c, a):
+    x, y = ex.val(a[0]), ex.val(a[1])
+    if _is_expr(y) and y == 1 and _is_expr(x):
+        return 1 - x
+    if _is_expr(x) and x == 1 and _is_expr(y):
+        return 1 - y
+    raise Unknown('bitwise xor the rule does not interpret')
+
+
+def _all_equal(vals):
+    """several pixels packed into one vector: one value when they agree, otherwise every distinct value is a pixel that is written"""
+    if not vals or not all(_is_expr(v) for v in vals):
+        raise Unknown('pack of untracked values')
+    distinct = []
+    for v in vals:
+        if not any(sympy.expand(v - w) == 0 for w in distinct):
+            distinct.append(v)
+    if len(distinct) == 1:
+        return distinct[0]
+    return ('cases', [({}, v, []) for v in distinct])
+
+
+def _spread(k):
+    """helper(value, &out0 .. &out{k-1} [, flag]) that unpacks one vector of pixels into k vectors"""
+    def h(ex, c, a):
+        v = ex.val(a[0])
+        for i in range(k):
+            _st(ex, ex.val(a[1 + i]), v)
+    return h
+
+
+def _unpack_zero(ex, c, a):
+    x, y = ex.val(a[0]), ex.val(a[1])
+    if _is_expr(y) and y == 0:
+        return x
+    if _is_expr(x) and _is_expr(y) and sympy.expand(x - y) == 0:
+        return x
+    raise Unknown('interleave of two different values')
 
 
 def voc_sse2():
@@ -60,17 +174,48 @@ def voc_sse2():
     V['_mm_adds_epu8'] = V['_mm_adds_epu16'] = lambda ex, c, a: sympy.expand(ex.val(a[0]) + ex.val(a[1]))
     V['_mm_setzero_si128'] = lambda ex, c, a: sympy.Integer(0)
     V['_mm_and_si128'] = lambda ex, c, a: ('band', ex.val(a[0]), ex.val(a[1]))
+    V['_mm_or_si128'] = _or
+    V['_mm_xor_si128'] = _xor
+    V['create_mask_16_128'] = lambda ex, c, a: ex.val(a[0])
+    V['load_32_1x128'] = lambda ex, c, a: ex.val(a[0])
+    V['_mm_set_epi32'] = V['_mm_set_epi16'] = lambda ex, c, a: _all_equal([ex.val(o) for o in a])
+    V['_mm_unpacklo_epi8'] = V['_mm_unpacklo_epi16'] = V['_mm_unpackhi_epi8'] = V['_mm_unpackhi_epi16'] = _unpack_zero
+    V['unpack_565_128_4x128'] = _spread(4)
+    V['pack_565_4x128_128'] = lambda ex, c, a: _all_equal([_ld(ex, ex.val(o)) for o in a[:4]])
+    V['pack_565_2packedx128_128'] = V['pack_565_2x128_128'] = lambda ex, c, a: _all_equal([ex.val(o) for o in a[:2]])
+    V['convert_8888_to_0565'] = V['convert_0565_to_8888'] = lambda ex, c, a: ex.val(a[0])
+
+    def cmpeq(ex, c, a):
+        x, y = ex.val(a[0]), ex.val(a[1])
+        if _is_expr(y) and y == 0 and _is_expr(x):
+            return ('pred', 'zero', x)
+        if _is_expr(x) and x == 0 and _is_expr(y):
+            return ('pred', 'zero', y)
+        raise Unknown('vector comparison the rule does not interpret')
+    V['_mm_cmpeq_epi32'] = V['_mm_cmpeq_epi8'] = V['_mm_cmpeq_epi16'] = cmpeq
+
+    def movemask(ex, c, a):
+        x = ex.val(a[0])
+        if isinstance(x, tuple) and x[0] == 'pred':
+            return ('predmask', x[1], x[2])
+        raise Unknown('movemask of a value that is not a comparison')
+    V['_mm_movemask_epi8'] = movemask
+    for n in ('expand_pixel_32_1x128', 'expand565_16_1x128', 'pack_565_32_16', 'unpack_565_to_8888', 'expand_pixel_32_2x128', '_mm_set1_epi32', 'create_mask_2x32_128'):
+        V[n] = lambda ex, c, a: ex.val(a[0])
+    V['expand_pixel_8_1x128'] = lambda ex, c, a: ex.val(a[0])
+    V['expand_alpha_rev_1x128'] = lambda ex, c, a: ex.val(a[0])    # broadcast of the low lane
+    V['_mm_store_si128'] = V['_mm_storeu_si128'] = lambda ex, c, a: ex.store_ptr(ex.val(a[0]), ex.val(a[1]))
+    V['_mm_load_si128'] = V['_mm_loadu_si128'] = lambda ex, c, a: ex.load_ptr(ex.val(a[0]))
+
+    def earev2(ex, c, a):
+        _st(ex, ex.val(a[2]), ex.val(a[0])); _st(ex, ex.val(a[3]), ex.val(a[1]))
+    V['expand_alpha_rev_2x128'] = earev2
 
     def unpack2(ex, c, a):
         v = ex.val(a[0]); _st(ex, ex.val(a[1]), v); _st(ex, ex.val(a[2]), v)
     V['unpack_128_2x128'] = unpack2
 
-    def pack2(ex, c, a):
-        lo, hi = ex.val(a[0]), ex.val(a[1])
-        if sympy.expand(lo - hi) != 0:
-            raise Unknown('pack of different halves')
-        return lo
-    V['pack_2x128_128'] = pack2
+    V['pack_2x128_128'] = lambda ex, c, a: _all_equal([ex.val(a[0]), ex.val(a[1])])
 
     def ea2(ex, c, a):
         _st(ex, ex.val(a[2]), alpha(ex.val(a[0]))); _st(ex, ex.val(a[3]), alpha(ex.val(a[1])))
@@ -123,6 +268,21 @@ def voc_mmx():
     V['in'] = lambda ex, c, a: sympy.expand(ex.val(a[0]) * ex.val(a[1]))
     V['_mm_setzero_si64'] = lambda ex, c, a: sympy.Integer(0)
     V['_mm_empty'] = lambda ex, c, a: None
+    V['_mm_or_si64'] = _or
+    V['_mm_xor_si64'] = _xor
+    for n in ('expand8888', 'expand565', 'to_m64', 'to_uint64', 'expand4444'):
+        V[n] = lambda ex, c, a: ex.val(a[0])
+    V['expandx888'] = lambda ex, c, a: ex.opaque(ex.val(a[0]))
+    V['load8888u'] = lambda ex, c, a: ex.load_ptr(ex.val(a[0]))
+    V['expand_alpha_rev'] = lambda ex, c, a: ex.val(a[0])       # broadcast of the low lane: an a8 mask byte, or a packed 565 pixel
+    V['pack_565'] = lambda ex, c, a: ex.val(a[0])
+    V['expand_4x565'] = _spread(4)
+    V['expand_4xpacked565'] = _spread(2)
+    V['pack_4x565'] = lambda ex, c, a: _all_equal([ex.val(o) for o in a[:4]])
+    V['pack_4xpacked565'] = lambda ex, c, a: _all_equal([ex.val(o) for o in a[:2]])
+    V['convert_8888_to_0565'] = V['convert_0565_to_8888'] = lambda ex, c, a: ex.val(a[0])
+
+    V['pack8888'] = lambda ex, c, a: _all_equal([ex.val(a[0]), ex.val(a[1])])
     ARITY = {'pix_multiply': 2, 'pix_add_mul': 4, 'over': 3, 'in_over': 4, 'expand_alpha': 1, 'negate': 1}
     PRED = {'is_zero': 'zero', 'is_opaque': 'opaque', 'is_equal': None}
     return V, ARITY, PRED
@@ -197,8 +357,69 @@ class Exec:
             for s_ in succs:
                 self._next(f, s_, b, (env, mem, assum, writes, notes), visited, region, results, walk)
 
-        walk(start, ({}, dict(getattr(self, 'init_mem', {})), {}, [], []), None, frozenset())
+        inits = getattr(self, 'init_states', None)
+        if inits:
+            for st in inits[:6]:
+                env0, mem0, as0, notes0, prev0 = st
+                walk(start, (env0, mem0, as0, [], notes0), prev0, frozenset())
+        else:
+            walk(start, ({}, dict(getattr(self, 'init_mem', {})), {}, [], []), None, frozenset())
         return results
+
+    def prefix_states(self, f, argvals, header):
+        """symbolic states on arrival at `header` along acyclic paths from the function entry (values computed before the loop)"""
+        out = []
+        limit = [0]
+
+        def walk(b, state, prev, visited):
+            limit[0] += 1
+            if limit[0] > 300 or len(out) >= 6:
+                return
+            env, mem, assum, notes = state
+            if b == header:
+                # assumptions made on the way about per-pixel values (pixels of earlier loops) say nothing about this loop's pixels
+                keep = getattr(self, 'solid_syms', set())
+                a_in = {k: v for k, v in assum.items() if getattr(k, 'free_symbols', set()) <= keep}
+                out.append((dict(env), dict(mem), a_in, list(notes), prev)); return
+            env = dict(env); mem = dict(mem); assum = dict(assum); notes = list(notes)
+            self.f = f; self.env = env; self.mem = mem; self.argvals = argvals; self.writes = []; self.assum = assum
+            blk = f.blocks[b]
+            for x in blk.insts:
+                if x.op == 'phi':
+                    for a, bb in zip(x.a, x.d['bb']):
+                        if bb == prev:
+                            env[x.i] = self.val(a)
+                    continue
+                if x.op in ('ret', 'br', 'switch', 'unreachable'):
+                    break
+                try:
+                    self.step(x)
+                except Unknown:
+                    env[x.i] = None
+                self.f = f; self.env = env; self.mem = mem; self.argvals = argvals; self.assum = assum
+            t = blk.term
+            if t.op == 'br' and t.a:
+                try:
+                    dec = self.decide(t)
+                except Unknown:
+                    dec = None
+                for sidx, s_ in enumerate(t.d['succ']):
+                    if dec is not None and dec[0] == 'const' and (sidx == 0) != dec[1]:
+                        continue
+                    a2 = dict(assum)
+                    if dec is not None and dec[0] == 'assume':
+                        a2.update((dec[1] if sidx == 0 else dec[2]) or {})
+                    if (b, s_) in visited:
+                        continue
+                    walk(s_, (env, mem, a2, notes), b, visited | {(b, s_)})
+                return
+            for s_ in blk.succ:
+                if (b, s_) in visited:
+                    continue
+                walk(s_, (env, mem, assum, notes), b, visited | {(b, s_)})
+
+        walk(0, ({}, {}, {}, []), None, frozenset())
+        return out
 
     def _next(self, f, s_, b, state, visited, region, results, walk):
         env, mem, assum, writes, notes = state
@@ -241,13 +462,30 @@ class Exec:
             return None
         if k == 'u':
             return None
+        if k == 'g':
+            return Ptr(('global', o[1], None))
+        if k == 'ce' and o[1] == 'getelementptr' and o[2] and o[2][0][0] == 'g':
+            fs = [st for st in (o[3] if len(o) > 3 else []) if st[0] == 'f']
+            if len(fs) == 1:
+                return Ptr(('global', o[2][0][1], fs[0][3]))
         return None
+
+    def opaque(self, v):
+        """v | <alpha mask>: the same colour, alpha 1"""
+        if not _is_expr(v):
+            raise Unknown('alpha forced on an untracked value')
+        return force_opaque(v)
 
     def load_ptr(self, p):
         if not isinstance(p, Ptr):
             raise Unknown('load through a non-pointer')
         if p.role in ROLE_SYM:
             return ROLE_SYM[p.role]
+        if isinstance(p.role, tuple) and p.role[0] == 'global':
+            v = unit_consts(self.P, self.u).get((p.role[1], p.role[2]))
+            if v is None:
+                raise Unknown('load of a global the rule does not interpret')
+            return v
         if isinstance(p.role, tuple):
             v = self.mem.get(p.role)
             if v is None:
@@ -260,15 +498,15 @@ class Exec:
             raise Unknown('store through a non-pointer')
         if p.role == 'd':
             self.writes.append(('d', v)); return None
-        if isinstance(p.role, tuple):
+        if isinstance(p.role, tuple) and p.role[0] == 'local':
             self.mem[p.role] = v; return None
-        raise Unknown('store to source or mask')
+        raise Unknown('store to source, mask or a global')
 
     def step(self, x):
         f = self.f; env = self.env
         op = x.op
         if op == 'alloca':
-            env[x.i] = Ptr(('local', x.i)); return
+            env[x.i] = Ptr(('local', f.name, x.i)); return
         if op in ('bitcast', 'zext', 'sext', 'trunc', 'freeze', 'ptrtoint', 'inttoptr'):
             env[x.i] = self.val(x.a[0]); return
         if op == 'getelementptr':
@@ -285,9 +523,19 @@ class Exec:
             if isinstance(p, Ptr):
                 if p.role == 'd':
                     self.writes.append(('d', v))
-                elif isinstance(p.role, tuple):
+                elif isinstance(p.role, tuple) and p.role[0] == 'local':
                     self.mem[p.role] = v
             return
+        if op == 'or' and any(o[0] == 'c' and (int(o[1]) & 0xffffffff) == 0xff000000 for o in x.a):
+            env[x.i] = self.opaque(self.val([o for o in x.a if o[0] != 'c'][0])); return
+        if op == 'or':
+            sat = self._sat_add(x)
+            if sat is not None:
+                env[x.i] = sat; return
+        if op in ('lshr', 'ashr') and x.a[1][0] == 'c' and int(x.a[1][1]) == 8:
+            m = self._mul_un8(x)
+            if m is not None:
+                env[x.i] = m; return
         if op == 'lshr' and x.a[1][0] == 'c' and int(x.a[1][1]) == 24:
             v = self.val(x.a[0])
             env[x.i] = alpha(v) if _is_expr(v) else None; return
@@ -297,7 +545,10 @@ class Exec:
         if op == 'and' and any(o[0] == 'c' and int(o[1]) in (0xff,) for o in x.a):
             v = self.val([o for o in x.a if o[0] != 'c'][0])
             env[x.i] = v; return
-        if op == 'shl' and x.a[1][0] == 'c' and int(x.a[1][1]) in (8, 16, 24):
+        if op == 'and':
+            a, b = self.val(x.a[0]), self.val(x.a[1])
+            env[x.i] = a if (_is_expr(a) and _is_expr(b) and sympy.expand(a - b) == 0) else None; return
+        if op == 'shl' and x.a[1][0] == 'c' and int(x.a[1][1]) in (8, 16, 24, 32, 48):
             env[x.i] = self.val(x.a[0]); return            # replication of an 8-bit alpha into another channel
         if op == 'or':
             a, b = self.val(x.a[0]), self.val(x.a[1])
@@ -403,6 +654,48 @@ class Exec:
             env[x.i] = ('cases', [(a, v, n) for a, v, w, n, m in res]); return
         raise Unknown('helper %s has paths whose effects the general path does not subsume' % name)
 
+    def _def(self, o):
+        f = self.f
+        o = f.strip_casts(o) if hasattr(f, 'strip_casts') else o
+        return f.by_id.get(o[1]) if o[0] == 'v' else None
+
+    def _sat_add(self, x):
+        """t | (0 - (t >> 8)) with t = a + b of two 8-bit values: the scalar saturating add"""
+        for t_o, n_o in ((x.a[0], x.a[1]), (x.a[1], x.a[0])):
+            n = self._def(n_o)
+            if n is None or n.op != 'sub' or not (n.a[0][0] == 'c' and int(n.a[0][1]) == 0):
+                continue
+            sh = self._def(n.a[1])
+            if sh is None or sh.op not in ('lshr', 'ashr') or not (sh.a[1][0] == 'c' and int(sh.a[1][1]) == 8):
+                continue
+            t = self._def(t_o); t2 = self._def(sh.a[0])
+            if t is None or t2 is None or t.i != t2.i or t.op != 'add':
+                continue
+            a, b = self.val(t.a[0]), self.val(t.a[1])
+            if _is_expr(a) and _is_expr(b):
+                return sympy.expand(a + b)
+        return None
+
+    def _mul_un8(self, x):
+        """((t >> 8) + t) >> 8 with t = a * b + 0x80: the MUL_UN8 macro"""
+        s_ = self._def(x.a[0])
+        if s_ is None or s_.op != 'add':
+            return None
+        for sh_o, t_o in ((s_.a[0], s_.a[1]), (s_.a[1], s_.a[0])):
+            sh = self._def(sh_o); t = self._def(t_o)
+            if sh is None or t is None or sh.op not in ('lshr', 'ashr') or not (sh.a[1][0] == 'c' and int(sh.a[1][1]) == 8):
+                continue
+            t2 = self._def(sh.a[0])
+            if t2 is None or t2.i != t.i or t.op != 'add':
+                continue
+            for m_o, k_o in ((t.a[0], t.a[1]), (t.a[1], t.a[0])):
+                mm = self._def(m_o)
+                if k_o[0] == 'c' and int(k_o[1]) == 0x80 and mm is not None and mm.op == 'mul':
+                    a, b = self.val(mm.a[0]), self.val(mm.a[1])
+                    if _is_expr(a) and _is_expr(b):
+                        return sympy.expand(a * b)
+        return None
+
     def decide(self, t):
         """('const', bool) | ('assume', subs_true, subs_false) | ('pixelcond',) | None"""
         f = self.f
@@ -425,6 +718,11 @@ class Exec:
                 isnull = l.role is None
                 res = isnull if pred == 'eq' else (not isnull)
                 return ('const', res)
+            if isinstance(l, tuple) and l[0] == 'predmask' and _is_expr(r) and r.is_Integer and int(r) == 0xffff:
+                sub = _pred_subs(l[1], l[2])
+                if sub is None:
+                    return ('pixelcond',)
+                return ('assume', sub, {}) if pred == 'eq' else ('assume', {}, sub) if pred == 'ne' else ('pixelcond',)
             if isinstance(l, tuple) and l[0] == 'pred' and _is_expr(r) and r == 0:
                 sub = _pred_subs(l[1], l[2])
                 if sub is None:
@@ -790,6 +1088,7 @@ def r4_c_combiners(ck, P):
     ss = algebra.slot_stores(S_)
     voc = voc_c()
     n = 0
+    decided = set()
     for (un, creator, slot), m in sorted(ss.items()):
         if slot not in ('combine_32', 'combine_32_ca'):
             continue
@@ -811,6 +1110,8 @@ def r4_c_combiners(ck, P):
                 probs = [('incomplete', str(e))]
             viol = [p for p in probs if p[0] == 'violation']
             inc = [p for p in probs if p[0] == 'incomplete']
+            if viol or not probs:
+                decided.add(fn)
             if viol:
                 ck.violation(R, fn, '%s[%s] (pixman-combine32.c)' % (slot, opname), viol[0][1], 'pixman-combine32.c:%d' % f.line)
             elif inc:
@@ -821,3 +1122,191 @@ def r4_c_combiners(ck, P):
                 ck.ok(R, where)
     if n < 20:
         ck.incomplete(R, 'only %d Porter-Duff C combiners found' % n)
+    return decided
+
+
+# ------------------------------------------------------------------------------------------ C02-R10: composite fast-path bodies
+def _info_role(f, o, depth=0, seen=None):
+    """roles {'s','m','d'} of a pixel pointer built from info->{src,mask,dest}_image->bits.bits (through phis and pointer arithmetic)"""
+    if seen is None:
+        seen = set()
+    out = set()
+    if depth > 30:
+        return {'?'}
+    x = f.v(f.strip_casts(o))
+    if x is None:
+        return {'?'}
+    if x.i in seen:
+        return out
+    seen.add(x.i)
+    if x.op == 'getelementptr':
+        return _info_role(f, x.a[0], depth + 1, seen)
+    if x.op in ('phi', 'select'):
+        for a in (x.a if x.op == 'phi' else x.a[1:]):
+            out |= _info_role(f, a, depth + 1, seen)
+        return out
+    if x.op == 'load':
+        p = f.path(x.a[0])
+        fl = f.fields_of(p)
+        if fl and fl[-1] == 'bits_image.bits':
+            for q in fl:
+                if q.startswith('pixman_composite_info_t.') and q.endswith('_image'):
+                    return {{'src': 's', 'mask': 'm', 'dest': 'd'}[q.split('.')[1][:-6]]}
+        return {'?'}
+    if x.op == 'alloca':
+        return {('local', f.name, x.i)}
+    return {'?'}
+
+
+class RExec(Exec):
+    """Exec for composite routines: pixel pointers get their role from the info structure they were derived from"""
+
+    def val(self, o):
+        v = Exec.val(self, o)
+        if v is None and o[0] == 'v':
+            x = self.f.by_id[o[1]]
+            if x.ty.endswith('*'):
+                roles = _info_role(self.f, o)
+                if len(roles) == 1 and '?' not in roles:
+                    return Ptr(next(iter(roles)))
+        return v
+
+    def call(self, x):
+        comb = getattr(self, 'combiner_ops', {}).get(x.callee)
+        if comb is not None and len(x.a) >= 5:
+            opname, ca = comb
+            pd, ps, pm = self.val(x.a[2]), self.val(x.a[3]), self.val(x.a[4])
+            if not (isinstance(pd, Ptr) and pd.role == 'd' and isinstance(ps, Ptr) and ps.role == 's' and isinstance(pm, Ptr)):
+                raise Unknown('combiner %s called with untracked pointers' % x.callee)
+            E = expected(opname, ca)
+            if E is None:
+                raise Unknown('combiner %s has clamped factors' % x.callee)
+            if pm.role == 'm' and not ca:
+                E = sympy.expand(E.subs({S: S * MA, SA: SA * MA}, simultaneous=True))
+            elif pm.role is not None and pm.role != 'm':
+                raise Unknown('combiner mask pointer role')
+            self.writes.append(('d', E)); self.env[x.i] = None; return
+        if x.callee == '_pixman_image_get_solid' and len(x.a) >= 2:
+            y = self.f.v(self.f.strip_casts(x.a[1]))
+            role = None
+            if y is not None and y.op == 'load':
+                lf = self.f.last_field(self.f.path(y.a[0]))
+                role = {'pixman_composite_info_t.src_image': S, 'pixman_composite_info_t.mask_image': M}.get(lf)
+            if role is None:
+                raise Unknown('solid colour of an unidentified image')
+            self.env[x.i] = role; return
+        return Exec.call(self, x)
+
+
+def r10_composite_bodies(ck, P):
+    R = ck.rule('C02-R10', 'composite fast-path routines whose bodies are written in the helper vocabulary compute the Porter-Duff result of the operator/opacity of every table entry they are registered for (shortcut branches included)', floor=60)
+    from . import tables
+    C = __import__('pxv.consts', fromlist=['x']).fast_path_flags()
+    ops, N = algebra.operators(P)
+    inv = {v: k for k, v in ops.items()}
+    names = tables.format_names(P)
+    any_, solid, null = C['PIXMAN_any'], C['PIXMAN_solid'], C['PIXMAN_null']
+    analysed = 0; skipped = defaultdict(int); skipped_fns = {}
+    done = {}
+    for u, g, t in tables.composite_tables(P):
+        if u.name not in ('pixman-mmx.c', 'pixman-sse2.c'):
+            continue
+        voc = voc_sse2() if u.name == 'pixman-sse2.c' else voc_mmx()
+        loops = _loops_of(u)
+        comb_ops = {}
+        for (un2, creator, slot), m2 in algebra.slot_stores(P).items():
+            if un2 == u.name and slot in ('combine_32', 'combine_32_ca'):
+                for i2, (cf, x2) in m2.items():
+                    if i2.lstrip('-').isdigit() and int(i2) in inv:
+                        comb_ops[cf] = (inv[int(i2)], slot.endswith('_ca'))
+        for idx, e in enumerate(t):
+            fn = tables.fname(e['func'])
+            if not fn or e['op'] not in inv or inv[e['op']] not in algebra.ORACLE:
+                continue
+            if e['src_flags'] & (C['FAST_PATH_SCALE_TRANSFORM'] | C['FAST_PATH_ROTATE_90_TRANSFORM'] | C['FAST_PATH_ROTATE_270_TRANSFORM']):
+                continue            # transformed variants: geometry, not operator arithmetic
+            opname = inv[e['op']]
+            f = u.functions.get(fn)
+            if f is None:
+                continue
+            # only identity-transform entries over direct pixels: scaled/rotated variants share the pixel kernels
+            ca = bool(e['mask_flags'] & C['FAST_PATH_COMPONENT_ALPHA'])
+            if e['src_format'] in (any_, C['PIXMAN_pixbuf'], C['PIXMAN_rpixbuf']) or e['dest_format'] == any_:
+                continue
+            has_mask = e['mask_format'] != null
+            src_noalpha = e['src_format'] not in (solid,) and tables.fmt_info(e['src_format'])['a'] == 0
+            dst_noalpha = tables.fmt_info(e['dest_format'])['a'] == 0
+            msk_fmt = e['mask_format']
+            key = (u.name, fn, opname, ca, has_mask, src_noalpha, dst_noalpha, msk_fmt == solid)
+            if key in done:
+                continue
+            E = expected(opname, ca)
+            if E is None:
+                continue
+            base = {}
+            fmt_sub = {}
+            if src_noalpha:
+                fmt_sub[S] = force_opaque(S); fmt_sub[SA] = sympy.Integer(1)    # an alpha-less source reads as opaque whatever its x bits hold
+            if dst_noalpha:
+                fmt_sub[D] = force_opaque(D); fmt_sub[DA] = sympy.Integer(1)
+            if e['src_format'] != solid and tables.fmt_info(e['src_format'])['type'] == 1:
+                base.update(_gens(S - SA))          # alpha-only source: its single channel is its alpha
+            if has_mask and msk_fmt != solid and tables.fmt_info(msk_fmt)['type'] == 1:
+                base.update(_gens(M - MA))          # alpha-only mask
+            proj = None
+            if tables.fmt_info(e['dest_format'])['type'] == 1:
+                base.update(_gens(D - DA))
+                proj = dict(ALPHA)                  # an alpha-only destination stores only the alpha channel of the result
+            Es = E
+            if has_mask and not ca:
+                Es = sympy.expand(E.subs({S: S * MA, SA: SA * MA}, simultaneous=True))
+            if fmt_sub:
+                Es = sympy.expand(Es.subs(fmt_sub, simultaneous=True))
+            where = '%s[%d] %s (%s %s, mask %s -> %s)' % (g['name'], idx, fn, opname, names.get(e['src_format'], 'solid' if e['src_format'] == solid else hex(e['src_format'])), names.get(msk_fmt, 'solid' if msk_fmt == solid else 'none' if msk_fmt == null else hex(msk_fmt)), names.get(e['dest_format']))
+            probs = []; nloops = 0
+            try:
+                ls = [L for L in loops.get(fn, []) if not any(l2['parent'] == L['header'] for l2 in loops.get(fn, []))]
+                if not ls:
+                    raise Unknown('no pixel loop')
+                for L in ls:
+                    ex = RExec(P, u, voc, has_mask); ex.loop_header = None; ex.combiner_ops = comb_ops; ex.base = base
+                    ex.solid_syms = ({S, SA} if e['src_format'] == solid else set()) | ({M, MA} if msk_fmt == solid else set())
+                    pre = ex.prefix_states(f, [None, None], L['header'])
+                    ex = RExec(P, u, voc, has_mask); ex.loop_header = L['header']; ex.combiner_ops = comb_ops; ex.base = base
+                    ex.init_states = pre
+                    res = ex.run_paths(f, [None, None], region=set(L['blocks']), start=L['header'])
+                    wrote = False
+                    for assum, rv, writes, notes, _m in res:
+                        vals = [v for r, v in writes if r == 'd']
+                        if vals:
+                            wrote = True
+                        for a2, got, n2 in _expand_cases(vals[-1] if vals else D):
+                            sub = dict(base); sub.update(assum); sub.update(a2)
+                            if got is None or not _is_expr(got):
+                                raise Unknown('a value written is not expressible in the helper vocabulary')
+                            diff = sympy.expand(got - Es)
+                            if proj:
+                                chans = [diff.subs(proj, simultaneous=True)]
+                            elif dst_noalpha:
+                                chans = [diff.subs(ACH, 0)]                       # the x bits of the destination are not observable
+                            else:
+                                chans = [diff.subs(ACH, 0), diff.subs(ALPHA, simultaneous=True)]
+                            if not all(vanishes(c_, sub) for c_ in chans):
+                                if notes or n2:
+                                    raise Unknown('shortcut under a condition the rule does not interpret')
+                                probs.append('%s (loop at block %s) writes %s%s; %s%s requires %s' % (fn, L['header'], got, (' when ' + _asm(sub)) if sub else '', opname, ' with a unified mask' if has_mask and not ca else '', Es))
+                    if wrote:
+                        nloops += 1
+                if nloops == 0:
+                    raise Unknown('no loop writes the destination')
+            except Unknown as ex_:
+                done[key] = 'skip'; skipped[str(ex_)[:70]] += 1; skipped_fns.setdefault(str(ex_)[:70], []).append(fn)
+                continue
+            done[key] = 'ok'
+            analysed += 1; ck.saw(f)
+            if probs:
+                ck.violation(R, fn, 'body of %s for %s' % (fn, opname), probs[0], '%s table %s entry %d' % (u.name, g['name'], idx))
+            else:
+                ck.ok(R, where)
+    ck.r10_skipped = skipped_fns
+    ck.note('C02-R10: %d routine/operator combinations analysed; not analysable with the vocabulary: %s' % (analysed, dict(skipped)))
